@@ -1,5 +1,6 @@
 SPECIFICATION Spec
 CONSTANTS
+  ReorgMarked = TRUE
   N = 3
   MaxDeliver = 3
   MaxCrash = 1
